@@ -90,9 +90,9 @@ func c10EstablisherTLS(t *testing.T, e *Env) {
 		budget time.Duration // real time within which the pool must be back at full strength
 	}
 	scens := []scen{
-		{2, []string{"healthy", "silent"}, 40 * time.Second},          // one accepted-but-silent connection: its slot must be freed and refilled
-		{1, []string{"close", "healthy"}, 20 * time.Second},           // a connection closed at once
-		{2, nil, 10 * time.Second},                                    // control: healthy peer
+		{2, []string{"healthy", "silent"}, 40 * time.Second}, // one accepted-but-silent connection: its slot must be freed and refilled
+		{1, []string{"close", "healthy"}, 20 * time.Second},  // a connection closed at once
+		{2, nil, 10 * time.Second},                           // control: healthy peer
 	}
 	if e.Thorough() {
 		scens = append(scens, scen{3, []string{"silent", "healthy", "silent", "close"}, 80 * time.Second}, scen{1, []string{"silent", "silent"}, 60 * time.Second})
